@@ -41,6 +41,11 @@ func pairSpace(tier, opt string) []pairLeg {
 		if !two {
 			add("Kstr", KeyedStr())
 		}
+		keys := []string{"id"}
+		if two {
+			keys = []string{"id", "t"}
+		}
+		add("large", Large().Filter(func(v V) bool { return membersCarryKeys(v, keys) }))
 		return legs
 	}
 	un := 4
@@ -58,6 +63,7 @@ func pairSpace(tier, opt string) []pairLeg {
 	}
 	add("deep", Deep(thorough || o == "none" || o == "MERGE"))
 	add("mixed", Mixed())
+	add("large", Large())
 	add("numbers", NumDocs())
 	add("strings", StrDocs())
 	add("hostile", thin(HostileDocs(), 110))
